@@ -1,11 +1,9 @@
-import Ampy.Model.Wmo
+import Ampy.Model.Basic
 /-
 Spec predicates for C18, written from the property text and evaluated on the implementation's
 answers.
 -/
 namespace Ampy.Spec
-
-def absRat (x : Rat) : Rat := if x < 0 then -x else x
 
 /-- `k` is an acceptable okta for `n` hits out of `m` (`0 ≤ n ≤ m`, `0 < m`): 0 only for `n = 0`,
 8 only for `n = m`, otherwise a nearest integer to `8n/m` clipped to `1..7`. -/
@@ -15,7 +13,7 @@ def c18okta (n m : Nat) (k : Int) : Bool :=
   else
     let x : Rat := 8 * (n : Rat) / (m : Rat)
     decide (1 ≤ k) && decide (k ≤ 7) &&
-      (decide (absRat (x - k) ≤ 1/2) || (k == 1 && decide (x ≤ 1/2)) || (k == 7 && decide (x ≥ 15/2)))
+      (decide (Ampy.absRat (x - k) ≤ 1/2) || (k == 1 && decide (x ≤ 1/2)) || (k == 7 && decide (x ≥ 15/2)))
 
 /-- The whole row `n = 0..m`: every entry acceptable, and non-decreasing in `n`. -/
 def c18row (m : Nat) (ks : List Int) : Bool :=
